@@ -192,3 +192,90 @@ func subFrameCutRandom() mon.Sub {
 		},
 	}
 }
+
+// subFrameCutLarge: frames above the 1 MiB threshold at which ws.ReadFrame
+// switches to reading the payload incrementally, cut around the header, at
+// both ends of the payload and around the 1 MiB mark.
+func subFrameCutLarge() mon.Sub {
+	sizes := []int{1 << 20, 1<<20 + 1, 1<<20 + 513, 2<<20 + 5}
+	return mon.Sub{
+		Name: "frame-cut-large", Exhaustive: true, Required: true,
+		N: func(string) int { return len(sizes) * 2 * 2 },
+		Do: func(c *mon.C) {
+			size := sizes[c.I%len(sizes)]
+			side := []ref.Side{ref.SideServer, ref.SideClient}[c.I/len(sizes)%2]
+			// the big frame alone, or after a small one
+			sh := []gen.Shape{{Op: ref.OpBinary, Fin: true, Len: size}}
+			if c.I/(len(sizes)*2) == 1 {
+				sh = []gen.Shape{{Op: ref.OpText, Fin: true, Len: 3}, {Op: ref.OpBinary, Fin: true, Len: size}, {Op: ref.OpPing, Fin: true, Len: 2}}
+			}
+			frames := gen.Build(sh, side, c.Rng, false)
+			stream, starts, _ := gen.Encode(frames)
+			var offs []int
+			for _, st := range starts {
+				for d := -1; d <= 16; d++ {
+					offs = append(offs, st+d)
+				}
+			}
+			big := starts[len(starts)-1]
+			if len(sh) == 3 {
+				big = starts[1]
+			}
+			for _, d := range []int{1<<20 - 1, 1 << 20, 1<<20 + 1, 1<<20 + 14, 1<<20 + 15, size / 2, size + 9, size + 10, size + 13, size + 14} {
+				offs = append(offs, big+d)
+			}
+			offs = append(offs, len(stream)-1, len(stream))
+			if frameCut(c, sh, side, offs, []int{0, 1, 2}) {
+				c.Sample(map[string]interface{}{"frames": gen.ShapesKey(sh), "side": side, "offsets": len(offs)})
+			}
+		},
+	}
+}
+
+// subReaderCutLarge: messages around 1 MiB (above ReadMessage's pre-allocation
+// limit) cut at frame starts, header ends, the 1 MiB mark and the payload end,
+// through all reader entry points.
+func subReaderCutLarge() mon.Sub {
+	const M = 1 << 20
+	cases := [][]gen.Shape{
+		{{Op: ref.OpBinary, Fin: true, Len: M + 1}},
+		{{Op: ref.OpText, Fin: false, Len: 9}, {Op: ref.OpPing, Fin: true, Len: 4}, {Op: ref.OpCont, Fin: true, Len: M + 1}},
+		{{Op: ref.OpBinary, Fin: false, Len: M + 700}, {Op: ref.OpCont, Fin: true, Len: 5}, {Op: ref.OpText, Fin: true, Len: 2}},
+	}
+	return mon.Sub{
+		Name: "reader-cut-large", Required: true,
+		N: func(t string) int {
+			if t == "thorough" {
+				return len(cases) * 2 * 3
+			}
+			return len(cases) * 2
+		},
+		Do: func(c *mon.C) {
+			sh := cases[c.I%len(cases)]
+			side := []ref.Side{ref.SideServer, ref.SideClient}[c.I/len(cases)%2]
+			hl := 2
+			if side == ref.SideServer {
+				hl = 6
+			}
+			var offs []int
+			pos := 0
+			for _, s := range sh {
+				h := hl
+				if s.Len > 65535 {
+					h += 8
+				} else if s.Len > 125 {
+					h += 2
+				}
+				offs = append(offs, pos+1, pos+h, pos+h+1, pos+h+s.Len-1, pos+h+s.Len)
+				if s.Len > M {
+					offs = append(offs, pos+h+M-1, pos+h+M, pos+h+M+1)
+				}
+				pos += h + s.Len
+			}
+			fl := c.I / (len(cases) * 2) % 3
+			if cutStream(c, sh, side, offs, []int{fl}) {
+				c.Sample(map[string]interface{}{"frames": gen.ShapesKey(sh), "side": side, "offsets": offs, "flavour": fl})
+			}
+		},
+	}
+}
